@@ -24,6 +24,7 @@ var c03Cfgs = map[string]c03Cfg{
 	"C": {"[[", "]]", "[*", "*]"},
 	"D": {"<%", "%>", "<#", "#>"},
 	"E": {"{{", "}}", "<!--", "-->"},
+	"F": {"{{", "}}", "<#", "*}"}, // only the left comment marker is configured; the right one keeps its default
 }
 
 var c03Vars = func() jet.VarMap {
@@ -40,7 +41,11 @@ func c03Replay(cfgName string) func(i int, raw json.RawMessage) Result {
 	if cfgName != "A" {
 		opts = append(opts, jet.WithDelims(cfg.LD, cfg.RD))
 		if cfgName != "B" {
-			opts = append(opts, jet.WithCommentDelims(cfg.LC, cfg.RC))
+			if cfgName == "F" {
+				opts = append(opts, jet.WithCommentDelims(cfg.LC, ""))
+			} else {
+				opts = append(opts, jet.WithCommentDelims(cfg.LC, cfg.RC))
+			}
 		}
 	}
 	loader := jet.NewInMemLoader()
